@@ -465,7 +465,9 @@ fn norm_name(s: &str) -> String {
 }
 
 pub fn default_vars() -> Vec<(String, String)> {
-    vec![("VP_HOME_DIR".into(), "home/ferris".into()), ("VP_EMPTY".into(), "".into()), ("VP_TOKEN_1".into(), "t#".into())]
+    vec![("VP_HOME_DIR".into(), "home/ferris".into()), ("VP_EMPTY".into(), "".into()), ("VP_TOKEN_1".into(), "t#".into()),
+         // much longer than its `${…}` reference: positions computed on the expanded text fall outside the input
+         ("VP_LONG".into(), "/srv/artifacts/python/wheels/2026-09/manylinux_2_28_x86_64/cp312/release".into())]
 }
 
 pub fn run(out: &mut Out, tier: &str, seed: u64, prop: &str) {
@@ -686,7 +688,9 @@ pub fn run(out: &mut Out, tier: &str, seed: u64, prop: &str) {
         let urls = ["https://h.org/${VP_HOME_DIR}/a", "https://h.org/${VP_UNSET}/a", "https://h.org/${VP_EMPTY}a", "file://${PROJECT_ROOT}/a", "https://h.org/${vp_lower}", "https://h.org/${}",
             "https://h.org/$VP_HOME_DIR", "https://h.org/${VP_HOME_DIR", "https://h.org/${VP_HOME_DIR}${VP_HOME_DIR}", "https://h.org/$${VP_HOME_DIR}}", "https://h.org/${VP_TOKEN_1}@x", "https://${VP_HOME_DIR}",
             "https://h.org/a[1]@b{c}$d", "${VP_HOME_DIR}", "https://h.org/${VP HOME}", "https://h.org/${VP_HOME_DIR}/${VP_UNSET}/${VP_TOKEN_1}",
-            "https://h.org/${VP_N\u{663}}/a", "https://h.org/${VP_\u{c9}}/a", "https://h.org/${VP_\u{ff11}}/${VP_HOME_DIR}"];
+            "https://h.org/${VP_N\u{663}}/a", "https://h.org/${VP_\u{c9}}/a", "https://h.org/${VP_\u{ff11}}/${VP_HOME_DIR}",
+            // schemes outside the supported set (rejected by this URL type; a path with the extension feature — `given()` is still the text as written)
+            "ftp://h.org/${VP_HOME_DIR}/a", "ssh://h.org/${VP_TOKEN_1}", "HTTPS://h.org/${VP_HOME_DIR}", "s3://b/${VP_HOME_DIR}/k", "localhost:8080/${VP_HOME_DIR}", "C:\\d\\${VP_HOME_DIR}", "git+ftp://h/${VP_UNSET}/r"];
         let envsets: Vec<Vec<(String, String)>> = vec![
             vec![],
             default_vars(),
@@ -695,6 +699,16 @@ pub fn run(out: &mut Out, tier: &str, seed: u64, prop: &str) {
             // variables whose names contain non-ASCII digits / letters are set, yet must never be expanded
             vec![("VP_N\u{663}".into(), "odd".into()), ("VP_\u{c9}".into(), "acc".into()), ("VP_\u{ff11}".into(), "wide".into()), ("VP_HOME_DIR".into(), "h".into())],
         ];
+        for sc in SUPPORTED_SCHEMES {
+            for tail in ["//h.org/p", "//h.org/${VP_HOME_DIR}/p ; os_name == 'a'"] {
+                let u = if sc == "file" { format!("file:///p{}", &tail[7..]) } else { format!("{sc}:{tail}") };
+                let text = format!("n @ {u}");
+                let ans = req_case(out, &mut w, &mut rc, prop, &text, &vars);
+                if !ans.starts_with("ok ") { out.oracle_fail("C18", &format!("a URL with the supported scheme `{sc}` is rejected: {ans}"), serde_json::json!({"text": text})); }
+                url_rule_oracle(out, &text, &format!(" {u}"), &ans, &vars);
+                out.stat("c18.supported_schemes");
+            }
+        }
         for u in urls {
             for vs in &envsets {
                 let text = format!("n @ {u}");
@@ -721,6 +735,9 @@ pub fn run(out: &mut Out, tier: &str, seed: u64, prop: &str) {
             "requests-2.26.0.tar.gz", "foo.whl", "x.zip", "a.tar.bz2", "a.tgz", "pkg-1.0.tar.xz", "A.TAR.GZ", "a.tar", "a.tbz", "a.tar.lzma", "dir/a.whl", "~/x", "\\\\server\\share", "foo.tar.gz.sig",
             "${VP_HOME_DIR}/x", "a.tlz", "a.txz", "a.tar.lz", "b.b.zip", "n.gz", "tar.gz", "x.tar.gz2",
             // non-ASCII text: byte lengths and char counts differ
+            // archive file names that are not package names (local version `+`, leading `_`, non-ASCII letter): the archive
+            // extension alone decides, with or without an extras suffix
+            "torch-2.1.0+cpu-cp310-cp310-linux_x86_64.whl", "_private-1.0.zip", "na\u{ef}ve-1.0.whl", "a+b.tar.gz", "pkg-1.0+local.tar.bz2",
             // whitespace INSIDE the path / URL (one blank, runs of blanks, non-ASCII blanks): the token goes on until a blank is
             // followed by `;`, `#` or the end
             "/srv/wheel house/pkg-1.0-py3-none-any.whl", "/srv/wheel  house/pkg-1.0-py3-none-any.whl", "./a \t b/c.whl", "https://example.org/wheel\u{3000} house/pkg-1.0.whl?tag=\u{e9}", "../x   y\u{a0}\u{a0}z/p.tar.gz",
@@ -780,6 +797,8 @@ pub fn run(out: &mut Out, tier: &str, seed: u64, prop: &str) {
         let targeted = ["a[b ;c]", "a[b] [c]", "a[[b]]", "a[b]c]", "a[b][c]", "x ; [", "p[a,b,]", "p[,a]", "p[a \u{e9}]", "p[]", "p[ ]", "p[a-]", "p[ a , b ]",
             "${VP_HOME_DIR}/x[dev]", "p[${VP_EMPTY}]", "${VP_EMPTY}", "file://localhost/p", "file://localhost", "file:p", "FILE:///p", "file:///a%20b#c%2541", "git+https://h/p[x]#egg", "h://x", "hg+static-http://h/p",
             "p;q", "p; q", "p ;q", "p #c", "p# c", "p\n; m", "p\r x", "p\r\n", "", " ", "[x]", "a]", "a[", "p ; os_name == 'a' x", "p;", "p; ", "p#", "p[x]; ", "p[x]# y", "./a b", "./a b ; os_name == 'a'",
+            // malformed extras behind a variable whose value is longer / shorter than its reference, ASCII and not
+            "${VP_LONG}/foo-1.0-py3-none-any.whl[dev,]", "${VP_LONG}[,]", "${VP_HOME_DIR}/\u{43f}\u{430}\u{43a}\u{435}\u{442}[dev,]", "${VP_EMPTY}\u{65e5}\u{672c}[a b]", "${VP_LONG}/x[\u{e9}]", "${VP_TOKEN_1}\u{e9}\u{e9}[a,,b]", "./${VP_LONG}[dev ; os_name == 'a'",
             "p [x]", "p\t[x] ; os_name=='a'", "/\u{65e5}[\u{672c}]", "p[x]\u{3000};os_name=='a'", "p;\u{3000}#x", "/a;[x]\u{3000}#c", "/a#[x]\u{2003}x", "/a;[x] #c", "C:\\a\\b.whl[x]", "a:b", "1a:b", "../x[y] # c"];
         for t in targeted { unnamed_case(out, &mut w, &mut rc, t, &vars); out.nontrivial(format!("unnamed {t}")); }
         let bases = ["https://x.org/a-1.0.whl[dev]", "../rel/p.tar.gz ; os_name == 'a'", "/abs/path[dev,test] ; python_version > '3'", "file:///tmp/x[a]", "git+https://github.com/a/b.git@main#egg=b", "${VP_HOME_DIR}/x [x]", "./p # c"];
@@ -907,6 +926,20 @@ fn expand_spec(s: &str, vars: &[(String, String)]) -> String {
     out
 }
 
+/// the schemes `VerbatimUrl` documents as supported for direct-URL requirements (the generic parser,
+/// `Requirement<Url>`, takes any URL; the URL type used here takes these, matched exactly as written)
+pub const SUPPORTED_SCHEMES: [&str; 25] = ["file", "git+git", "git+http", "git+file", "git+ssh", "git+https", "bzr+http", "bzr+https", "bzr+ssh", "bzr+sftp", "bzr+ftp", "bzr+lp", "bzr+file",
+    "hg+file", "hg+http", "hg+https", "hg+ssh", "hg+static-http", "svn+ssh", "svn+http", "svn+https", "svn+svn", "svn+file", "http", "https"];
+
+/// RFC 3986 scheme of a text: ALPHA *( ALPHA / DIGIT / "+" / "-" / "." ) before the first `:`
+fn scheme_of(text: &str) -> Option<&str> {
+    let (s, _) = text.split_once(':')?;
+    let mut cs = s.chars();
+    if !cs.next()?.is_ascii_alphabetic() { return None; }
+    if !cs.all(|c| c.is_ascii_alphanumeric() || matches!(c, '+' | '-' | '.')) { return None; }
+    Some(s)
+}
+
 /// the URL-end rule of C18, read from the property statement (not from the code)
 fn url_rule_oracle(out: &mut Out, text: &str, after_at: &str, ans: &str, vars: &[(String, String)]) {
     let chars: Vec<(usize, char)> = after_at.char_indices().collect();
@@ -945,7 +978,12 @@ fn url_rule_oracle(out: &mut Out, text: &str, after_at: &str, ans: &str, vars: &
         }
         apply_env(vars);
         let expanded = expand_spec(url, vars);
+        let supported = scheme_of(&expanded).is_some_and(|sc| SUPPORTED_SCHEMES.contains(&sc));
+        if !supported && !cfg!(feature = "ext") { out.oracle_fail("C18", "accepted although the scheme is not one of the supported schemes of this URL type", input.clone()); }
+        if !supported { out.stat("c18.accepted_unsupported_scheme_as_path"); }
         match url::Url::parse(&expanded) {
+            // (with the extension feature a text without a supported scheme is a path: the URL is not judged, `given()` is)
+            Ok(_) if !supported => {}
             Ok(u) => if u.to_string() != shown { out.oracle_fail("C18", "the parsed URL is not the URL of the text after `${NAME}` expansion", input.clone()); },
             // (with the extension feature such a text is a path, made absolute against the working directory)
             Err(_) => if !cfg!(feature = "ext") { out.oracle_fail("C18", "accepted although the expanded text is not a URL", input.clone()) },
@@ -961,7 +999,9 @@ fn url_rule_oracle(out: &mut Out, text: &str, after_at: &str, ans: &str, vars: &
         let parsed = url::Url::parse(&expanded);
         let rest_ok = rest.is_empty() || (rest.starts_with(';') && MarkerTree::from_str(&rest[1..]).is_ok());
         let f20 = !rest.is_empty() && parsed.as_ref().map(|u| { let t = u.to_string(); t.ends_with(';') || t.ends_with('#') }).unwrap_or(false);
-        if !url.is_empty() && parsed.is_ok() && rest_ok && !f20 && !ans.starts_with("panic") {
+        let supported = scheme_of(&expanded).is_some_and(|sc| SUPPORTED_SCHEMES.contains(&sc));
+        if !supported { out.stat("c18.rejected_unsupported_scheme"); }
+        if !url.is_empty() && parsed.is_ok() && supported && rest_ok && !f20 && !ans.starts_with("panic") {
             out.oracle_fail("C18", &format!("a URL that ends at whitespace followed by `;`, `#` or the end, with a valid remainder, is rejected (expected URL {:?})", url), input.clone());
         }
     }
